@@ -326,6 +326,9 @@ def _reverse_squeeze(self, args, kwargs, out):
         raise RuntimeError(
             "Cannot use td.squeeze() as a decorator if the dimension is implicit."
         )
+    if out is self:
+        # squeeze(dim) on a non-singleton dim is a no-op that returned the tensordict itself
+        return self
     if not out.is_locked:
         return out.update(self.unsqueeze(dim), inplace=False)
     else:
